@@ -33,6 +33,7 @@ Statements:
                       yield: the queue moves it (one wake-up, at now + d)
 """
 
+import enum
 import functools
 import random
 
@@ -355,6 +356,33 @@ def features_of(prog):
 # interpreter
 # ---------------------------------------------------------------------------
 
+class _Beats(float):
+    """A float of the caller's own class (a unit type, numpy.float64, ...)."""
+    __slots__ = ()
+
+
+class _Count(int):
+    __slots__ = ()
+
+
+class _Steps(enum.IntEnum):
+    ZERO = 0
+    ONE = 1
+    TWO = 2
+    THREE = 3
+    FOUR = 4
+
+
+def _as_other_number(d, k):
+    if isinstance(d, bool) or not isinstance(d, (int, float)):
+        return d
+    if isinstance(d, int) or float(d).is_integer() and k % 2:
+        if 0 <= d <= 4 and k % 3 == 0:
+            return _Steps(int(d))
+        return _Count(int(d)) if isinstance(d, int) else _Beats(d)
+    return _Beats(d)
+
+
 class Run:
     """One program instance running on the real library."""
 
@@ -387,6 +415,7 @@ class Run:
         self.addr = NetAddr('127.0.0.1', 57110)
         self.max_late = 0.0
         self.n_res = 0
+        self.n_wrapped = 0
         self.n_model = 0
         self.kinds = {}
 
@@ -648,7 +677,14 @@ class Run:
             op = s[0]
             if op == 'y':
                 st['in_yield'] = True
-                yield s[1]
+                # every few yields the delta is a number of another numeric class
+                # (subclass of float / int, an IntEnum member): still a delta
+                st['ny'] = st.get('ny', 0) + 1
+                if (st['ny'] * 7 + st['rid']) % 5 == 0:
+                    self.n_wrapped += 1
+                    yield _as_other_number(s[1], st['ny'])
+                else:
+                    yield s[1]
                 st['in_yield'] = False
                 mv = st.pop('moved', None)
                 if mv is None:
